@@ -481,6 +481,23 @@ pub fn write_json_string(x: &str, s: &mut String) {
     s.push('"');
 }
 
+/// JSON string with raw UTF-8 (only the mandatory escapes)
+pub fn write_json_string_utf8(x: &str, s: &mut String) {
+    s.push('"');
+    for ch in x.chars() {
+        match ch {
+            '"' => s.push_str("\\\""),
+            '\\' => s.push_str("\\\\"),
+            '\n' => s.push_str("\\n"),
+            '\r' => s.push_str("\\r"),
+            '\t' => s.push_str("\\t"),
+            c if (c as u32) < 0x20 => s.push_str(&format!("\\u{:04x}", c as u32)),
+            c => s.push(c),
+        }
+    }
+    s.push('"');
+}
+
 /// Value equality as C01 states it: same structure and member order, strings code point for
 /// code point, integers in [-2^63, 2^64) exactly, every other number as the nearest double
 /// (-0 == 0). `exp` is what the input denotes, `got` what the output row denotes.
